@@ -50,7 +50,10 @@ PROPS = {
                      "cowclone", "detach", "setcow", "dig", "card", "empty", "of"}},
     "C03": {"suites": [("query", 1.0), ("kernq", 0.3)], "theorems": L1_QUERY,
             "owns": {"card", "empty", "has", "min", "max", "rank", "sel", "cir", "iwi", "eq", "toarr", "toexarr", "chkeq", "dig", "kern"}},
-    "C05": {"suites": [("ser", 1.0)], "theorems": ["RModel.BSet.canon_ext"] + F_SERIAL, "modules": DEFAULT_MODULES + [FACTS],
+    "C05": {"suites": [("ser", 1.0)],
+            "theorems": ["RModel.Impl.encode_length", "RModel.Impl.decode_encode", "RModel.Impl.prefix_rejected",
+                         "RModel.Impl.decode_no_panic", "RModel.Impl.roundtrip_wf", "RModel.BSet.canon_ext"] + F_SERIAL,
+            "modules": DEFAULT_MODULES + [FACTS, "RProofs.Properties.C05"],
             "owns": {"ser", "rd", "wrfail", "trunc", "wf", "dig", "add", "or"}},
     "C06": {"suites": [("spec", 1.0)], "theorems": ["RModel.BSet.canon_ext"] + F_SERIAL, "modules": DEFAULT_MODULES + [FACTS], "owns": {"spec", "ser", "card", "toarr"}},
     "C09": {"suites": [("hist", 1.0), ("alg", 0.7), ("xform", 0.7), ("ser", 0.5), ("kernwf", 1.0)],
@@ -58,15 +61,22 @@ PROPS = {
             "modules": DEFAULT_MODULES + [FACTS, "RProofs.Properties.C09"],
             "owns": {"wf", "kernwf"}},
     "C10": {"suites": [("fuzzdec", 1.0)],
-            "theorems": ["RModel.Impl.decode_shape", "RModel.Impl.decoded_valid_is_wf", "RModel.Impl.validate_implies_wf_of_decoded",
+            "theorems": ["RModel.Impl.decode_no_panic", "RModel.Impl.prefix_rejected", "RModel.Impl.decode_shape",
+                         "RModel.Impl.decoded_valid_is_wf", "RModel.Impl.validate_implies_wf_of_decoded",
                          "RModel.BSet.canon_ext"] + F_SERIAL,
-            "modules": DEFAULT_MODULES + [FACTS, "RProofs.Properties.C09"], "owns": None},
+            "modules": DEFAULT_MODULES + [FACTS, "RProofs.Properties.C09", "RProofs.Properties.C05"], "owns": None},
     "C14": {"suites": [("hist", 1.0), ("alg", 0.7), ("xform", 0.5)],
             "theorems": ["RModel.Impl.readme_bound", "RModel.Impl.bound_function", "RModel.BSet.canon_ext"] + F_SERIAL,
             "modules": DEFAULT_MODULES + [FACTS, "RProofs.Properties.C14"], "owns": {"size"}},
     "C15": {"suites": [("nbr", 1.0), ("kernq", 0.3)], "theorems": L1_NBR, "owns": {"nv", "pv", "nav", "pav", "kern"}},
     "C16": {"suites": [("xform", 1.0), ("dense", 1.0)], "theorems": L1_XFORM,
             "owns": {"off", "off32", "sflip", "eq", "dense", "fromdense", "frombitset", "densechk", "dig"}},
+    "C17": {"suites": [("r64", 1.0)], "theorems": L1_ALGEBRA + L1_MUT[:5] + L1_QUERY[:9] + L1_NBR[:4] +
+            ["RModel.Facts.r64Highbits_spec", "RModel.Facts.r64Lowbits_spec"],
+            "modules": DEFAULT_MODULES + ["RProofs.Facts.Bits"], "owns": None},
+    "C18": {"suites": [("ser64", 1.0)], "theorems": ["RModel.BSet.canon_ext", "RModel.Facts.r64_cookies_spec",
+                                                     "RModel.Impl.decode_encode", "RModel.Impl.prefix_rejected", "RModel.Impl.decode_no_panic"],
+            "modules": DEFAULT_MODULES + [FACTS, "RProofs.Properties.C05"], "owns": None},
 }
 
 HOOK_COMMITS = ["ad703f4"]
